@@ -455,6 +455,30 @@ def check_wrappers(ctx):
             ctx.violate("distance_pairwise accepted an `out` of the wrong shape", {"op": "distance_out_shape"}, {"kind": "distance_out"})
         except Exception:
             pass
+        # output buffers (`out=`) of the spherical-coordinate helpers and of norm2: whatever the buffer held before, after the
+        # call it holds the result (a buffer from np.empty holds garbage), and the result is the one computed without a buffer;
+        # a radius handed to spherical_coordinates(r=...) is used, not altered
+        sx, sy, sz = (rng.normal(size=5) for _ in range(3))
+        r_ref = g.spherical_coordinates_r(sx, sy, sz)
+        for nm_, call, want in (("norm2", lambda b: g.norm2(sx, sy, sz, out=b), np.sqrt(sx * sx + sy * sy + sz * sz)),
+                                ("norm2_2d", lambda b: g.norm2_2d(sx, sy, out=b), np.sqrt(sx * sx + sy * sy)),
+                                ("spherical_coordinates_r", lambda b: g.spherical_coordinates_r(sx, sy, sz, out=b), r_ref),
+                                ("spherical_coordinates_theta", lambda b: g.spherical_coordinates_theta(sz, r_ref, out=b), np.arccos(sz / r_ref)),
+                                ("spherical_coordinates_phi", lambda b: g.spherical_coordinates_phi(sx, sy, out=b), np.arctan2(sy, sx))):
+            for fillv in (0.0, 7.5, np.nan):
+                buf = np.full(5, fillv)
+                got = call(buf)
+                ctx.count("out_buffer:" + nm_)
+                if not (np.allclose(got, want, rtol=1e-14, atol=0) and np.allclose(buf, want, rtol=1e-14, atol=0)):
+                    ctx.violate(f"{nm_}(…, out=<buffer holding {fillv}>) does not leave the result in the buffer: got {np.asarray(got).tolist()}, expected {want.tolist()}",
+                                {"op": "out_buffer", "fn": nm_, "x": sx.tolist(), "y": sy.tolist(), "z": sz.tolist(), "buffer_filled_with": repr(fillv)}, {"kind": "out_buffer", "fn": nm_})
+                    break
+        r_keep = r_ref.copy()
+        sph = g.spherical_coordinates(sx, sy, sz, r=r_ref)
+        back = np.stack([sph.r * np.sin(sph.theta) * np.cos(sph.phi), sph.r * np.sin(sph.theta) * np.sin(sph.phi), sph.r * np.cos(sph.theta)])
+        if not (np.array_equal(r_ref, r_keep) and np.allclose(back, np.stack([sx, sy, sz]), rtol=0, atol=1e-12)):
+            ctx.violate("spherical_coordinates(x, y, z, r=<the radius>) does not invert back to (x, y, z), or alters the radius it was given",
+                        {"op": "spherical_r_given", "x": sx.tolist(), "y": sy.tolist(), "z": sz.tolist()}, {"kind": "spherical"})
         # results belong to the caller
         y_, p__, r_ = (float(v) for v in rng.uniform(-3, 3, size=3))
         fixtures.check_fresh(ctx, "rotation_matrix_ypr", lambda: g.rotation_matrix_ypr(y_, p__, r_), {"op": "fresh", "fn": "rotation_matrix_ypr", "ypr": [y_, p__, r_]})
